@@ -30,7 +30,8 @@ def gen_cases(tier, seed):
         cs = case_seed(seed, PID, k)
         r = random.Random(cs)
         fam = fams[k % len(fams)]
-        c = {'family': fam, 'seed': cs, 'tau': r.choice([0.2, 0.5, 1.0, 1.6]), 'gamma': r.choice([0.3, 1.0, 2.0]), 'rho': r.choice([0.02, 0.05, 0.1, 0.3]),
+        c = {'family': fam, 'seed': cs, 'tau': r.choice([0.2, 0.5, 1.0, 1.6]), 'gamma': r.choice([0.3, 1.0, 2.0]), 'rho': r.choice([0.02, 0.05, 0.1, 0.3, 0.3, 0.0, None]),      # None: documented default rho = 1/N
+            
              'p': r.choice([0.15, 0.4, 0.8]), 'tspan': r.choice([4.0, 8.0]), 'tcount': r.choice([9, 17]), 'tmin': r.choice([0, 0, 1.5])}
         if fam in ('A', 'B', 'Bd'):
             nn = r.randint(8, 40)
@@ -120,7 +121,7 @@ def run_case(case):
         m = fam[2:]
         for nm in ['%s_heterogeneous_meanfield_from_graph', '%s_individual_based', '%s_homogeneous_meanfield_from_graph']:
             nm = nm % m
-            call(nm, getattr(EoN, nm), G, tau, gamma, rho=rho, **tk)
+            call(nm, getattr(EoN, nm), G, tau, gamma, rho=((1.0 / N) if (rho is None and 'individual' in nm) else rho), **tk)   # individual_based: rho required
         ncomp = 3 if m == 'SIR' else 2
     for label, e in errs.items():
         if e == 'warn':
